@@ -44,9 +44,11 @@ def run(chk):
     names = ["pkg", "my_pkg", "My.Pkg", "pkg_2"]
     versions = ["1.0", "2.3.4.post1", "1!2.0", "0.1a1", "1.0+local.1"]
     builds = [None, "1", "2build"]
-    pys = ["py3", "py2.py3", "cp311", "cp38.cp39.cp310"]
     abis = ["none", "abi3", "cp311", "cp38.abi3"]
-    plats = ["any", "manylinux_2_17_x86_64.manylinux2014_x86_64", "win_amd64", "macosx_10_9_x86_64.macosx_11_0_arm64"]
+    plats = ["any", "manylinux_2_17_x86_64.manylinux2014_x86_64", "win_amd64", "macosx_10_9_x86_64.macosx_11_0_arm64",
+             # tags ending in characters of the extension (l, h, w, '.'-adjacent) and unusual but legal shapes
+             "linux_armv7l", "manylinux2014_armv7l.linux_armv7l", "macosx_10_9_universal", "win32", "linux_ppc64le.any", "some_osw", "arch_h"]
+    pys = ["py3", "py2.py3", "cp311", "cp38.cp39.cp310", "pyw"]
     files = []
     for i, (nm, v, b, py, abi, pl) in enumerate(itertools.product(names, versions, builds, pys, abis, plats)):
         if chk.tier == "quick" and i % 7:
